@@ -79,7 +79,7 @@ def solve_one(task):
 
 
 def solve_all(tasks, workers=None):
-    workers = workers or min(16, os.cpu_count() or 4)
+    workers = int(os.environ.get("PYVC_WORKERS", 0)) or workers or min(16, os.cpu_count() or 4)
     out = {}
     if not tasks:
         return out
